@@ -45,6 +45,30 @@ fn c02_standard_file_two_blocks() {
     core::mem::forget((out, dat, info));
 }
 
+/// a stored zero-length file is a standard entry with an empty block table: it extracts to an empty file (the
+/// concatenation of no blocks), not to a failure; symbolic bytes follow the header
+#[kani::proof]
+#[kani::unwind(44)]
+fn c02_standard_file_no_blocks() {
+    const ENTRY: usize = 128;
+    const HSIZE: usize = 64;
+    let mut img = vec![0u8; ENTRY + HSIZE + 32];
+    let tail: [u8; 32] = kani::any();
+    put(&mut img, ENTRY + HSIZE, tail);
+    let rest: [u8; 40] = kani::any();
+    put(&mut img, ENTRY + 24, rest);
+    let mut dat = SqPackData { file: MemFile::new(img) };
+    dat.file.pos.set((ENTRY + 24) as u64);
+    let info = FileInfo { size: HSIZE as u32, file_type: FileType::Standard, file_size: 0,
+        standard_info: Some(StandardFileBlock { num_blocks: 0 }), model_info: None, texture_info: None };
+    let out = dat.read_standard_file(ENTRY as u64, &info);
+    assert!(out.is_some());
+    let out = out.unwrap();
+    assert_eq!(out.len(), 0);
+    kani::cover!(true);
+    core::mem::forget((out, dat, info));
+}
+
 /// texture entry: the extracted file is the texture header followed by every mip level's blocks
 /// in order; block positions follow the flat i16 size table (mip 0: blocks of 128 and 256 bytes,
 /// mip 1: two blocks of 128 bytes)
